@@ -88,7 +88,8 @@ fn get_node_cover_range_impl(
         // A nested markup cannot be formatted alone: the blanks at its edges and the
         // indentation of its list items depend on the enclosing node. Use that node instead.
         && (node.is::<Markup>() && node.parent().is_none()
-            || node.is::<Expr>()
+            // Whitespace carries the indentation of the next line. It cannot be formatted alone.
+            || node.is::<Expr>() && !matches!(node.kind(), SyntaxKind::Space | SyntaxKind::Parbreak)
             || node.is::<Pattern>()))
     .then(|| (node.span(), mode))
     // It returns span to avoid problems with borrowing.
